@@ -3,11 +3,12 @@ import HdModel.Spec.Dns
 namespace Hd.Dns
 
 def parseAddrs : List String → List Addr
-  | v :: i :: p :: rest => { v6 := v == "1", id := natTok i, port := natTok p } :: parseAddrs rest
+  -- family token 2 = an IPv4-mapped IPv6 address: an IPv6 socket address (kept apart from the others by its id)
+  | v :: i :: p :: rest => { v6 := v != "0", id := natTok i + (if v == "2" then 100000000 else 0), port := natTok p } :: parseAddrs rest
   | _ => []
 
 def showAddrs (l : List Addr) : String :=
-  " ".intercalate (l.map fun a => s!"{boolTok a.v6} {a.id} {a.port}")
+  " ".intercalate (l.map fun a => if a.id ≥ 100000000 then s!"2 {a.id - 100000000} {a.port}" else s!"{boolTok a.v6} {a.id} {a.port}")
 
 def parsePref : String → Option Fam
   | "4" => some .v4
